@@ -405,11 +405,11 @@ def _work(item):
     stats = {}
     lay, lex = [], []
     try:
-        if kind in ("gen", "refgen", "expr"):
+        if kind in ("gen", "geni", "refgen", "expr"):
             _, seed, k = item
             rng = random.Random(seed)
-            mode, m = ("eval", "e") if kind == "expr" else ("exec", "m")
-            if kind == "gen":
+            mode, m = ("eval", "e") if kind == "expr" else ("exec", "i" if kind == "geni" else "m")
+            if kind in ("gen", "geni"):
                 text = GEN.Gen(rng).program()
             elif kind == "expr":
                 text = GEN.Gen(rng).expression()
@@ -555,7 +555,7 @@ def streams(ctx):
 
     # 3. generated programs x random compositions (up to 6 rewrites)
     rng = ctx.rng("generated")
-    n = 700 if ctx.quick else 24000
+    n = 1500 if ctx.quick else 40000
     items = [("gen", rng.randrange(1 << 40), 3 if ctx.quick else 4) for _ in range(n)]
     res = _pool_map(items, procs)
     reqs = [r for lay, lex, st in res for r in lay]
@@ -576,7 +576,7 @@ def streams(ctx):
         have_ref = False
     if have_ref:
         rng = ctx.rng("refgen")
-        n = 300 if ctx.quick else 8000
+        n = 600 if ctx.quick else 12000
         items = [("refgen", rng.randrange(1 << 40), 3) for _ in range(n)]
         res = _pool_map(items, procs)
         reqs = [r for lay, lex, st in res for r in lay]
@@ -590,7 +590,7 @@ def streams(ctx):
 
     # 4. expressions (Mode::Expression)
     rng = ctx.rng("expr")
-    n = 300 if ctx.quick else 6000
+    n = 600 if ctx.quick else 8000
     items = [("expr", rng.randrange(1 << 40), 3) for _ in range(n)]
     res = _pool_map(items, procs)
     reqs = [r for lay, lex, st in res for r in lay]
@@ -602,6 +602,20 @@ def streams(ctx):
                       note="Mode::Expression: " + ", ".join(f"{k}={v}" for k, v in sorted(st_e.items()))))
     _merge(total, st_e)
 
+    # 4b. Mode::Interactive on module-like programs (the reference for interactive mode is the module tree)
+    rng = ctx.rng("interactive")
+    n = 300 if ctx.quick else 6000
+    items = [("geni", rng.randrange(1 << 40), 3) for _ in range(n)]
+    res = _pool_map(items, procs)
+    reqs = [r for lay, lex, st in res for r in lay]
+    inter_lex = [r for lay, lex, st in res for r in lex]
+    st_i = {}
+    for lay, lex, st in res:
+        _merge(st_i, st)
+    out.append(Stream("interactive-mode", reqs, kind="random", compare=False,
+                      note="Mode::Interactive: " + ", ".join(f"{k}={v}" for k, v in sorted(st_i.items()))))
+    _merge(total, st_i)
+
     # 5. real programs: the CPython standard library that ships with python3
     files = stdlib_files()
     rng = ctx.rng("stdlib")
@@ -609,8 +623,8 @@ def streams(ctx):
         must = [f for f in files if os.path.basename(f) in ("test_grammar.py", "test_patma.py", "tokenize.py", "test_tokenize.py",
                                                             "test_named_expressions.py", "test_with.py")]
         pool = [f for f in files if os.path.getsize(f) < 40000 and f not in must]
-        files = must + rng.sample(pool, 70)
-    items = [("file", f, rng.randrange(1 << 40), 2 if ctx.quick else 3) for f in files]
+        files = must + rng.sample(pool, 110)
+    items = [("file", f, rng.randrange(1 << 40), 2 if ctx.quick else 6) for f in files]
     res = _pool_map(items, procs)
     reqs = [r for lay, lex, st in res for r in lay]
     st_f = {}
@@ -623,7 +637,7 @@ def streams(ctx):
 
     # 6. token streams of (original, variant): real lexer vs Lean lexer model, and equality of the two halves
     if LEX_MODEL_READY:
-        lx = lexreqs + small_lex + gen_lex + expr_lex
+        lx = lexreqs + small_lex + gen_lex + expr_lex + inter_lex
         out.append(Stream("lexpair-model-vs-lexer", lx, kind="random", compare=True,
                           note="range-erased token streams of original and variant (rules without parentheses) from the real "
                                "lexer and from the Lean model used by PV.C08.Thm"))
